@@ -97,7 +97,10 @@ def _case(draw):
     name = draw(_names) if cls != "PosNoKw" else None
     # before the object is printed, an object of a *different* class with the same module and qualified name but another
     # constructor signature may be printed (class factories, redefinitions): printing one must not affect the other
-    return {"cls": cls, "state": state, "name": name, "prelude": draw(st.sampled_from([None, None, "twin"]))}
+    return {"cls": cls, "state": state, "name": name, "prelude": draw(st.sampled_from([None, None, "twin"])),
+            # the object explicitly holds the values that are the class defaults now; afterwards (per-instance Parameter objects
+            # exist) the class defaults are changed: the state to reproduce is the object's, not the new defaults
+            "history": draw(st.sampled_from([None, None, None, "class_defaults_changed_afterwards"]))}
 
 
 def strategy(tier):
@@ -238,7 +241,27 @@ def execute(case):
         marks.add("explicit_name")
     if case["cls"] != "Plain":
         marks.add("positional_ctor_parameter")
+    restore = {}
+    if case.get("history") == "class_defaults_changed_afterwards":
+        for pn, new in (("i", 7), ("s", "changed"), ("num", -8.5)):
+            if pn in cls.param:
+                kw.setdefault(pn, cls.param[pn].default)
     obj = cls(**kw)
+    if case.get("history") == "class_defaults_changed_afterwards":
+        obj.param.objects()
+        for pn, new in (("i", 7), ("s", "changed"), ("num", -8.5)):
+            if pn in cls.param:
+                restore[pn] = cls.param[pn].default
+                setattr(cls, pn, new)
+        res.label("class_defaults_changed_after_instance_parameters_exist")
+    try:
+        return _print_and_compare(case, cls, obj, marks, res)
+    finally:
+        for pn, old in restore.items():
+            setattr(cls, pn, old)
+
+
+def _print_and_compare(case, cls, obj, marks, res):
     ns = dict(ms.C20_CLASSES)
     ns["param"] = param
 
